@@ -203,17 +203,20 @@ def leanchecker(modules: Sequence[str]) -> Tuple[bool, str]:
     return p.returncode == 0, (p.stdout + p.stderr)[-2000:]
 
 
-def run_model(lines: Iterable[Any], timeout: int = 1800) -> List[Any]:
-    """Pipe JSON lines through the Lean line-protocol driver; return the parsed output lines."""
-    ok, log = lake_build(["Basyx.Driver.All"])
+def run_model(main: str, lines: Iterable[Any], timeout: int = 1800) -> List[Any]:
+    """Pipe JSON lines through the Lean line-protocol driver lean/Mains/<main>.lean; return the parsed output lines.
+    The driver's imports are (re)built first, so the model always reflects the current Lean sources / generated tables."""
+    main_file = os.path.join("Mains", main + ".lean")
+    mods = re.findall(r"^import\s+(\S+)", open(os.path.join(LEAN_DIR, main_file)).read(), re.M)
+    ok, log = lake_build(mods)
     if not ok:
-        raise DriverBroken(log)
+        raise DriverBroken(log[-3000:])
     data = "".join(json.dumps(l, ensure_ascii=True) + "\n" for l in lines)
-    p = subprocess.run(["lake", "env", "lean", "--run", "Main.lean"], cwd=LEAN_DIR, input=data, capture_output=True,
+    p = subprocess.run(["lake", "env", "lean", "--run", main_file], cwd=LEAN_DIR, input=data, capture_output=True,
                        text=True, timeout=timeout)
     if p.returncode != 0:
         raise DriverBroken(p.stderr[-2000:] + p.stdout[-500:])
-    return [json.loads(l) for l in p.stdout.splitlines() if l.strip()]
+    return [json.loads(l) for l in p.stdout.split("\n") if l.strip()]
 
 
 class DriverBroken(Exception):
